@@ -97,7 +97,7 @@ func (p C03) Run(c *sim.Ctx, t *sim.Tape) sim.RunResult {
 
 	do := func(who *c03User, o fsx.Op) (stop bool) {
 		if filtered && len(opPathsOf(o)) > 0 && w.avoided(c, "C03", o) {
-			o = fsx.Op{K: "Lstat", P: o.P}
+			o = insteadOf(o)
 		}
 
 		out := w.step(c, "C03", i, o, who.env, who.uid, who.gid, who.umask)
